@@ -1,6 +1,7 @@
 """C18 fail-stop under truncation and missing files - storage fault injection (DESIGN 3.6)."""
 from .. import synth, world
 from ..oracle import Violation, bits_of, exc_text, tree_diff
+from ..sched import Sched
 from ..sim import SIM, SimAbort
 from . import common
 
@@ -158,6 +159,7 @@ def execute(plan):
         budget = EVENT_BUDGET + 10 * (SIM.mark() - m_ref)
         n0 = prod.truth[prod.images[0]].shape[0]
         rel = common.rpc_relation(n0, r)
+        retried = 0
         for fault in plan["faults"]:
             f = fault["file"]
             original = prod.files[f]
@@ -242,13 +244,41 @@ def execute(plan):
                     violations.append(Violation(ID, "wrong-tree", site, {
                         "fault": fault, "problems": problems[:4], "rpc": r,
                         "lines": [int(prod.truth[i].shape[0]) for i in prod.images]}))
+            if outcome == "raised" and fault["kind"] != "eio" and retried < 2 and \
+                    (len(keys) + r) % 3 == 0:
+                # the same damaged product is opened once more, by ANOTHER thread of the process
+                # (a retry on another pool worker): whatever the failed open left behind must not
+                # keep that one from terminating
+                retried += 1
+                SIM.max_events = SIM.mark() + budget
+                s2 = Sched(script=[], max_steps=budget)
+                s2.spawn("T2", lambda: w.open(records_per_chunk=r))
+                try:
+                    s2.run(wall_timeout=800)
+                except SimAbort:
+                    pass
+                bump("retries-in-another-thread")
+                if s2.deadlock or s2.budget or ("T2" not in s2.err and "T2" not in s2.res):
+                    violations.append(Violation(ID, "no-prompt-termination", site + ":retry-in-other-thread", {
+                        "fault": fault, "rpc": r, "deadlock": bool(s2.deadlock),
+                        "blocked": sorted(s2.blocked)}))
+                    outcome = "retry-hang"
+                elif "T2" in s2.res:
+                    # (a retry that returns is held to the same rule as the first call would be)
+                    try:
+                        problems = tree_diff(ref, s2.res["T2"])
+                    except Exception as e:  # noqa: BLE001
+                        problems = [exc_text(e)]
+                    if problems:
+                        violations.append(Violation(ID, "wrong-tree", site + ":retry-in-other-thread", {
+                            "fault": fault, "problems": problems[:4], "rpc": r}))
             SIM.max_events = 10**9
             keys.append(f"{kind}|{cc}|{rel}|{outcome}|{prod.level}")
             bump("evaluations")
             bump("outcome:" + outcome)
             # restore the pristine file
             w.write_file(f, original)
-            if outcome == "budget":
+            if outcome in ("budget", "retry-hang"):
                 break       # one hang per run is enough (each costs up to the wall limit)
         return common.outcome(SIM, violations, keys, stats, {"evaluations": len(plan["faults"])})
     finally:
